@@ -149,7 +149,7 @@ func (c *caseRun) do(ev Event) Obs {
 	case "hold":
 	}
 	stBefore := "None"
-	if ev.Kind == "release" {
+	if ev.Kind == "release" || ev.Kind == "part" {
 		stBefore = c.syncTerm()
 	}
 	o := c.r.Do(ev)
@@ -164,6 +164,11 @@ func (c *caseRun) do(ev Event) Obs {
 	if ev.Kind == "part" {
 		pid, sid := c.t.id(c.r.lastPrev), c.t.id(c.r.lastSig)
 		model = append(model, fmt.Sprintf("EPart %d %s %s", ev.Round, emit.Z(pid), emit.Z(sid)))
+		if len(o.Syncs) > 0 && strings.HasPrefix(stBefore, "(Some ") {
+			// the aggregator recovered a beacon that is not the head's successor and asked the sync
+			// manager for the rounds up to it; the peers answered
+			model = append(model, fmt.Sprintf("ESynced %d %s", ev.Round, strings.TrimSuffix(strings.TrimPrefix(stBefore, "(Some "), ")")))
+		}
 		c.parts[[3]int64{int64(ev.Round), pid, sid}] = true
 		c.rp[[2]int64{int64(ev.Round), pid}] = true
 		if ev.Round > c.maxR {
@@ -478,6 +483,15 @@ func genScenario(c *caseRun, rng *rand.Rand, steps int) {
 						c.do(Event{Kind: "part", From: j, Claim: j, Round: w.Head() + 1, Prev: "ref", Ep: live})
 						cnt++
 					}
+				}
+				if pend, _ := w.CClock.counts(); pend == 0 && rng.Intn(2) == 0 {
+					// ... and the process resumes in the last half second before the next round's time
+					// (clocks are not on whole seconds in real life)
+					c.advance(w.Period - 1)
+					c.do(Event{Kind: "fadv", D: 600})
+					c.do(Event{Kind: "release"})
+					c.advance(1) // back onto a whole second (the next round's boundary)
+					continue
 				}
 				c.do(Event{Kind: "release"})
 				continue
